@@ -1,4 +1,5 @@
 import PytypeModel.Proofs.MatcherExact
+import PytypeModel.Sem.CallableArity
 
 /-! # C02 — annotations are enforced exactly: error iff the value is outside the annotated type
 
@@ -167,5 +168,46 @@ example : «matches» HD (abs (.tuple [.bool true, .int 1])) (.tup [.base .int, 
 /-- the argument site is strictly weaker on a heterogeneous display -/
 example : siteError HD .arg (abs (.list [.int 1, .str 1])) (.gen1 .list (.base .int)) = false ∧
     siteError HD .ret (abs (.list [.int 1, .str 1])) (.gen1 .list (.base .int)) = true := by decide
+
+/-! ### a function value against `Callable[[A1..An], R]`: the arity clause (`Sem/CallableArity.lean`) -/
+
+section callable_arity
+open PytypeModel.Sem.CallableArity
+
+/-- **no error on a conforming callable** (full, every signature shape, every n): whenever CPython can call the
+function with n positional arguments, pytype's arity clause accepts it for `Callable[[A1..An], R]`. -/
+theorem callable_arity_no_false_error (s : FSig) (n : Nat) (h : cpyAccepts s n = true) : arityMatch s n = true := by
+  cases s with
+  | mk rp op va rk ok kw =>
+    simp only [cpyAccepts, arityMatch, FSig.mandatory, FSig.maximum, Bool.and_eq_true, Bool.or_eq_true,
+      decide_eq_true_eq, beq_iff_eq] at *
+    obtain ⟨⟨h1, h2⟩, h3⟩ := h
+    subst h3
+    cases va <;> cases kw <;> simp_all <;> omega
+
+/-- **exact inside the guard** (no keyword-only parameters; `**kwargs` only together with `*args`): the arity clause
+rejects exactly the functions CPython cannot call with n positional arguments. -/
+theorem callable_arity_exact_partial (s : FSig) (n : Nat) (hg : CallableArity.Guard s = true) :
+    arityMatch s n = cpyAccepts s n := by
+  cases s with
+  | mk rp op va rk ok kw =>
+    simp only [CallableArity.Guard, Bool.and_eq_true, beq_iff_eq, Bool.or_eq_true, Bool.not_eq_true'] at hg
+    obtain ⟨⟨h1, h2⟩, h3⟩ := hg
+    subst h1; subst h2
+    rw [Bool.eq_iff_iff]
+    cases va <;> cases kw <;> simp_all [cpyAccepts, arityMatch, FSig.mandatory, FSig.maximum] <;> omega
+
+/-- the unguarded statement is false of the code: `def f(x, *, y=0)` is accepted for `Callable[[A, B], R]` (CPython:
+`f(a, b)` raises TypeError), and so is `def f(**k)` for `Callable[[A], R]` — known findings c02-callable-kwonly-counted
+and c02-callable-kwargs-unbounded, replayed on the real matcher. -/
+theorem callable_arity_exact_not_full : ¬ ∀ (s : FSig) (n : Nat), arityMatch s n = cpyAccepts s n := by
+  intro h
+  exact absurd (h ⟨1, 0, false, 0, 1, false⟩ 2) (by decide)
+
+example : arityMatch ⟨0, 0, false, 0, 0, true⟩ 1 = true ∧ cpyAccepts ⟨0, 0, false, 0, 0, true⟩ 1 = false := by decide
+example : CallableArity.Guard ⟨1, 1, true, 0, 0, true⟩ = true ∧ arityMatch ⟨1, 1, true, 0, 0, true⟩ 5 = true := by decide
+example : CallableArity.Guard ⟨2, 0, false, 0, 0, false⟩ = true ∧ arityMatch ⟨2, 0, false, 0, 0, false⟩ 1 = false := by decide
+
+end callable_arity
 
 end PytypeModel.Props.C02
